@@ -516,11 +516,23 @@ func (g *fsGen) next() string {
 		}
 		return pre + fmt.Sprintf("chmod %s %d", h(g.path()), lib.Pick(r, perms))
 	case 17:
+		if g.opts.rdonly && r.Bool(40) {
+			// arguments that mean "leave unchanged": a read-only wrapper refuses the call all the same
+			if p, ok := g.pickExisting(""); ok {
+				return pre + fmt.Sprintf("%s %s -1 -1", lib.Pick(r, []string{"chown", "lchown"}), h(p))
+			}
+		}
 		if g.opts.users || g.opts.orefa {
 			return pre + fmt.Sprintf("chown %s %d %d", h(g.path()), lib.Pick(r, []int{0, 1001, 1002, -1}), lib.Pick(r, []int{0, 1001, 1002, -1}))
 		}
 		return pre + fmt.Sprintf("chown %s %d %d", h(g.path()), lib.Pick(r, []int{0, 1001}), lib.Pick(r, []int{0, 1001}))
 	case 18:
+		if g.opts.rdonly && r.Bool(40) {
+			// time 0 stands for the zero time.Time ("leave unchanged" for os.Chtimes)
+			if p, ok := g.pickExisting(""); ok {
+				return pre + fmt.Sprintf("chtimes %s 0", h(p))
+			}
+		}
 		g.tick++
 		return pre + fmt.Sprintf("chtimes %s %d", h(g.path()), 1500000000000000000+g.tick*1000000000)
 	case 19:
